@@ -55,6 +55,10 @@ type statPlan struct {
 	posOf map[int]int // sub-store id -> position in the read list
 	gate  []chan struct{}
 	done  []chan struct{}
+	// concurrent mode (statc): called by a replica before it starts (different speeds) and right before
+	// it hands a result for br to StatBlobs' callback
+	start   func(pos int)
+	attempt func(br blob.Ref)
 }
 
 type sub struct {
@@ -157,10 +161,14 @@ func (s *sub) ReceiveBlob(ctx context.Context, br blob.Ref, src io.Reader) (blob
 }
 
 func (s *sub) StatBlobs(ctx context.Context, blobs []blob.Ref, fn func(blob.SizedRef) error) error {
-	if p := s.splan.Load(); p != nil {
+	p := s.splan.Load()
+	if p != nil {
 		if pos, ok := p.posOf[s.id]; ok {
 			<-p.gate[pos]
 			defer close(p.done[pos])
+			if p.start != nil {
+				p.start(pos)
+			}
 		}
 	}
 	if s.down.Load() {
@@ -170,6 +178,9 @@ func (s *sub) StatBlobs(ctx context.Context, blobs []blob.Ref, fn func(blob.Size
 	// hide reports)
 	for _, br := range blobs {
 		if c, ok := s.get(br); ok {
+			if p != nil && p.attempt != nil {
+				p.attempt(br)
+			}
 			if err := fn(blob.SizedRef{Ref: br, Size: uint32(len(c))}); err != nil {
 				return err
 			}
@@ -633,6 +644,35 @@ func (w *world) exec(ws []string) string {
 		}
 		return showSRs(got) + " ok"
 
+	case ws[0] == "statc" && len(ws) == 3:
+		refs, ok := keyList(ws[1])
+		if !ok {
+			return "bad-op"
+		}
+		switch ws[2] {
+		case "fast", "yield", "sleep", "block":
+		default:
+			return "bad-op"
+		}
+		if w.sto == nil {
+			return "nocfg"
+		}
+		got, serial, err := w.statc(refs, ws[2])
+		sort.Strings(got)
+		out := "-"
+		if len(got) > 0 {
+			out = strings.Join(got, ",")
+		}
+		if err != nil {
+			out += " err"
+		} else {
+			out += " ok"
+		}
+		if serial {
+			return out + " serial"
+		}
+		return out + " concurrent"
+
 	case ws[0] == "enum" && len(ws) == 3:
 		after := ""
 		if ws[1] != "-" {
@@ -915,5 +955,124 @@ func (w *world) stat(refs []blob.Ref, order []int) ([]blob.SizedRef, error) {
 		return append([]blob.SizedRef(nil), got...), err
 	case <-time.After(watchdog):
 		return nil, errHang
+	}
+}
+
+// statc runs StatBlobs with every read replica answering at the same time (at different speeds) and a
+// slow callback.  mode: fast = returns at once; yield = the first calls yield the processor a few times;
+// sleep = the first calls sleep 1-3 ms; block = the callback for a ref waits until every reachable read
+// replica holding that ref has tried to deliver it (bounded) and then a little longer, so that a
+// second delivery for the same ref, if StatBlobs lets it through, arrives while the first is still in
+// the callback.  Returns the refs passed to the callback (with repetitions) and whether the callbacks
+// were serialised (never two at a time).
+func (w *world) statc(refs []blob.Ref, mode string) ([]string, bool, error) {
+	var mu sync.Mutex
+	cond := sync.NewCond(&mu)
+	attempts := map[blob.Ref]int{}
+	holders := map[blob.Ref]int{}
+	for _, br := range refs {
+		if _, seen := holders[br]; seen {
+			continue
+		}
+		holders[br] = 0
+		for _, id := range w.reads {
+			if !w.subs[id].down.Load() {
+				if _, ok := w.subs[id].get(br); ok {
+					holders[br]++
+				}
+			}
+		}
+	}
+	p := &statPlan{posOf: map[int]int{}}
+	for pos, id := range w.reads {
+		p.posOf[id] = pos
+		g := make(chan struct{})
+		close(g) // nobody waits at a gate: all replicas run concurrently
+		p.gate = append(p.gate, g)
+		p.done = append(p.done, make(chan struct{}))
+	}
+	p.start = func(pos int) {
+		switch mode {
+		case "yield":
+			for i := 0; i < pos; i++ {
+				runtime.Gosched()
+			}
+		case "sleep":
+			time.Sleep(time.Duration(pos) * 300 * time.Microsecond)
+		}
+	}
+	p.attempt = func(br blob.Ref) {
+		mu.Lock()
+		attempts[br]++
+		cond.Broadcast()
+		mu.Unlock()
+	}
+	for _, id := range w.reads {
+		w.subs[id].splan.Store(p)
+	}
+	defer func() {
+		for _, id := range w.reads {
+			w.subs[id].splan.Store(nil)
+		}
+	}()
+	var got []string
+	inCb, calls, concurrent := 0, 0, false
+	// waitFor waits (mu held) until ok() or d has passed
+	waitFor := func(d time.Duration, ok func() bool) {
+		end := time.Now().Add(d)
+		t := time.AfterFunc(d, func() { mu.Lock(); cond.Broadcast(); mu.Unlock() })
+		defer t.Stop()
+		for !ok() && time.Now().Before(end) {
+			cond.Wait()
+		}
+	}
+	fn := func(sb blob.SizedRef) error {
+		mu.Lock()
+		inCb++
+		if inCb > 1 {
+			concurrent = true
+			cond.Broadcast()
+		}
+		calls++
+		idx := calls
+		got = append(got, sb.Ref.Digest())
+		switch mode {
+		case "block":
+			waitFor(30*time.Millisecond, func() bool { return concurrent || attempts[sb.Ref] >= holders[sb.Ref] })
+			if holders[sb.Ref] > 1 {
+				// the other holders are now between "about to deliver" and either StatBlobs' lock
+				// (serialised: they wait for us) or this callback (not serialised: seen at once)
+				waitFor(4*time.Millisecond, func() bool { return concurrent })
+			}
+			mu.Unlock()
+		case "yield":
+			mu.Unlock()
+			if idx <= 4 {
+				for i := 0; i < 6; i++ {
+					runtime.Gosched()
+				}
+			}
+		case "sleep":
+			mu.Unlock()
+			if idx <= 3 {
+				time.Sleep(time.Duration(idx) * time.Millisecond)
+			}
+		default:
+			mu.Unlock()
+		}
+		mu.Lock()
+		inCb--
+		mu.Unlock()
+		return nil
+	}
+	errc := make(chan error, 1)
+	go func() { errc <- w.sto.StatBlobs(context.Background(), refs, fn) }()
+	select {
+	case err := <-errc:
+		mu.Lock()
+		defer mu.Unlock()
+		return append([]string(nil), got...), !concurrent, err
+	case <-time.After(watchdog):
+		return nil, false, errors.New("harness: StatBlobs did not return (watchdog)")
 	}
 }
